@@ -179,6 +179,47 @@ def run_case(inp):
                 s_off = float(model.score((sub + 2.25).astype(np.float32), quat, pos))
                 if abs(s_off - s0) > 2e-4:
                     V("offset", f"unmasked ZNCC changes under an offset: {s0:.6f} -> {s_off:.6f}")
+                # un-normalised detector counts: mean / contrast ~ 10^3
+                big_sub = (12.0 * sub + 30000.0).astype(np.float32)
+                s_big = float(model.score(big_sub, quat, pos))
+                lds_b = np.asarray(model.landscape(big_sub, (1.0, 1.0, 1.0), quaternion=quat, pos=pos))
+                c_big = float(lds_b[tuple(x // 2 for x in lds_b.shape)])
+                z_big = float(model.align(big_sub, (0.0, 0.0, 0.0), quaternion=quat, pos=pos).score)
+                if abs(s_big - s0) > 2e-3:
+                    V("offset", f"unmasked ZNCC score changes under gain 12 and offset 30000: {s0:.6f} -> {s_big:.6f}")
+                if abs(c_big - s_big) > 5e-3 or abs(z_big - s_big) > 5e-3:
+                    V("agree", f"ZNCC on intensities with a large offset: score {s_big:.5f}, landscape centre {c_big:.5f}, "
+                               f"zero-range alignment {z_big:.5f}")
+        elif kind == "loader":
+            # loader.score / construct_landscape: per molecule the same numbers as the model called with that
+            # molecule's own sub-volume and orientation (wedge model, rotated molecules)
+            from acryo import SubtomogramLoader, Molecules
+            nmol = 4
+            tomo = ndi.gaussian_filter(r.normal(size=(26, 26, 26)), 0.7).astype(np.float32)
+            mpos = r.uniform(9, 16, size=(nmol, 3))
+            mrot = Rotation.random(nmol, random_state=inp["seed"])
+            mole = Molecules(mpos, mrot)
+            ld = SubtomogramLoader(tomo, mole, order=1, output_shape=shape)
+            subs = np.asarray(ld.asnumpy())
+            quats = np.asarray(mole.quaternion(), dtype=np.float32)
+            for name in ("ZNCC", "NCC"):
+                sc = np.asarray(ld.score([tmpl], mask=mask, alignment_model=M[name], **kw)[0], dtype=float)
+                model = M[name](tmpl, mask, **kw)
+                want = np.array([float(model.score(subs[i], quats[i], mpos[i].astype(np.float32))) for i in range(nmol)])
+                if np.abs(sc - want).max() > 3e-4:
+                    V("loader-score", f"loader.score ({name}) differs from Model.score of the same sub-volumes / orientations by "
+                                      f"{np.abs(sc - want).max():.4f}")
+                lds = np.asarray(ld.construct_landscape(tmpl, mask=mask, max_shifts=1.0, alignment_model=M[name], **kw).compute())
+                for i in range(nmol):
+                    direct = np.asarray(model.landscape(subs[i], (1.0, 1.0, 1.0), quaternion=quats[i], pos=mpos[i].astype(np.float32)))
+                    if lds[i].shape != direct.shape or np.abs(lds[i] - direct).max() > 3e-4:
+                        V("loader-landscape", f"construct_landscape ({name}) of molecule {i} differs from Model.landscape called with that "
+                                              f"molecule's orientation by {np.abs(lds[i] - direct).max():.4f}")
+                        break
+                if name == "ZNCC":
+                    cs = np.array([float(lds[i][tuple(x // 2 for x in lds[i].shape)]) for i in range(nmol)])
+                    if np.abs(cs - sc).max() > 3e-4:
+                        V("agree", f"loader: ZNCC landscape centres {np.round(cs, 4).tolist()} vs scores {np.round(sc, 4).tolist()}")
         elif kind == "multi":
             # several templates (no rotation search): every candidate's score is the Pearson correlation with
             # that template, pre-processed like the sub-volume (mask, low-pass, wedge)
@@ -260,7 +301,7 @@ def oracle(rng, thorough, deep=False, hints=None):
     shapes = [(8, 8, 8), (9, 9, 9), (8, 9, 10), (7, 11, 9), (6, 6, 7)]
     n = 14 if big else 4
     for it in range(n):
-        for kind in ("pearson", "agree", "history", "argmax", "multi"):
+        for kind in ("pearson", "agree", "history", "argmax", "multi") + (("loader",) if it % 2 == 0 else ()):
             shape = shapes[(it + len(kind)) % len(shapes)]
             if kind == "argmax":
                 shape = (14, 15, 16)[it % 3], 14, 15
@@ -276,6 +317,10 @@ def oracle(rng, thorough, deep=False, hints=None):
     cases.append(dict(kind="pearson", shape=[8, 9, 8], seed=int(rng.integers(0, 10 ** 6)), mask=None, cutoff=None,
                       tilt=[-60, 60], quat=Rotation.random(random_state=int(rng.integers(0, 10 ** 6))).as_quat().tolist(),
                       model="ZNCC", d=[0, 0, 0], history=3))
+    cases.append(dict(kind="loader", shape=[7, 7, 7], seed=int(rng.integers(0, 10 ** 6)), mask=None, cutoff=None,
+                      tilt=[-60, 60], quat=[0, 0, 0, 1.0], model="ZNCC", d=[0, 0, 0], history=0))
+    cases.append(dict(kind="pearson", shape=[8, 8, 8], seed=int(rng.integers(0, 10 ** 6)), mask=None, cutoff=None,
+                      tilt=None, quat=[0, 0, 0, 1.0], model="ZNCC", d=[0, 0, 0], history=0))
     cases.append(dict(kind="multi", shape=[8, 8, 9], seed=int(rng.integers(0, 10 ** 6)), mask="soft", cutoff=None,
                       tilt=None, quat=[0, 0, 0, 1.0], model="ZNCC", d=[0, 0, 0], history=0))
     viols, stats = [], {"by_kind": {}, "samples": [{"oracle_case": c} for c in cases[:2]]}
